@@ -58,7 +58,7 @@ typedef struct { const m_evt_t *p; int kind, msg, key; const void *ud; int refs;
 /* non-ps sources of a module */
 enum { K_FD, K_TMR, K_SGN, K_PATH, K_PID, K_TASK, K_THRESH, NKIND };
 static const char *KN[NKIND] = { "fd", "timer", "signal", "path", "pid", "task", "threshold" };
-static const int NKEYS[NKIND] = { 3, 5, 3, 2, 2, 2, 3 };
+static const int NKEYS[NKIND] = { 3, 5, 3, 2, 2, 2, 5 };
 #define MAXSRC 8
 typedef struct { int present, kind, key, flags, fired; } srcrec_t;
 
